@@ -35,7 +35,7 @@ def entity_info(spec):
                 if col.get('pk'):
                     if x is chain[0]:
                         pk.append(col.get('type', 'str'))
-                elif col.get('discriminator') or col.get('fk'):
+                elif col.get('discriminator') or col.get('fk') or col.get('auto'):
                     continue
                 else:
                     attrs.append((a, col.get('type', 'str')))
